@@ -415,7 +415,7 @@ def run_part(pid, tier, seed, wd):
     for cfg in mc_cfgs:
         # (TLC's -coverage costs close to a minute whatever the size of the model: the small instances are checked
         # for vacuity through the scripts they emit instead)
-        with_cov = thorough and cfg in ("SpliceMC.cfg", "SpliceMC_tie.cfg", "SpliceMC_disc.cfg")
+        with_cov = thorough and cfg == "SpliceMC.cfg"
         r = vlib.tlc_mc(pid, "SpliceMC", cfg, workers=12, timeout=1800 if thorough else 600, coverage=with_cov)
         if r["violated"]:
             raise vlib.ToolError("design model violates %s in %s (spec needs correction)" % (r["violated"], cfg))
@@ -428,12 +428,14 @@ def run_part(pid, tier, seed, wd):
             ops_seen = {o["op"] for g in got for o in g["ops"]}
             want_ops = {"SpliceMC.cfg": {"send", "claim", "splice", "deliver", "mine", "sync"},
                         "SpliceMC_tie0.cfg": {"splice", "deliver", "mine", "sync"},
+                        "SpliceMC_tie.cfg": {"send", "claim", "splice", "deliver", "mine", "sync"},
+                        "SpliceMC_disc.cfg": {"send", "splice", "deliver", "disconnect", "reconnect", "complete"},
                         "SpliceMC_disc0.cfg": {"splice", "deliver", "disconnect", "reconnect"}}[cfg]
-            if not got or not want_ops <= ops_seen or (cfg == "SpliceMC_tie0.cfg" and not any(sum(1 for o in g["ops"] if o["op"] == "splice") == 2 for g in got)):
+            if not got or not want_ops <= ops_seen or (cfg in ("SpliceMC_tie0.cfg", "SpliceMC_tie.cfg") and not any(sum(1 for o in g["ops"] if o["op"] == "splice") == 2 for g in got)):
                 raise vlib.ToolError("vacuity: %s emitted %d scripts with ops %s" % (cfg, len(got), sorted(ops_seen)))
         vlib.log("[mc] %s: %d distinct states, %d generated, depth %d, %d scripts, %.0fs" %
                  (cfg, r["distinct"], r["states"], r["depth"], len(got), r["wall_s"]))
-        cap = (1200 if thorough else 60)
+        cap = (400 if thorough else 60)
         if len(got) > cap:
             got = rng.sample(got, cap)
         conv += [convert_script(s, MC_ASYNC.get(cfg, 0), k, rng) for k, s in enumerate(got)]
@@ -452,7 +454,7 @@ def run_part(pid, tier, seed, wd):
     # ---- real code
     batches = [("tlc", ["--scripts", spath])] if conv else []
     fam_counts = {"cut": 44, "cutrestart": 44, "cutasync": 44, "lock": 30, "tie": 30, "fwd3": 24, "hold": 30} if not thorough else \
-                 {"cut": 440, "cutrestart": 440, "cutasync": 440, "lock": 300, "tie": 300, "fwd3": 300, "hold": 300}
+                 {"cut": 176, "cutrestart": 176, "cutasync": 176, "lock": 120, "tie": 120, "fwd3": 96, "hold": 120}
     nfam = 0
     for fam, count in fam_counts.items():
         made = FAMILIES[fam](rng, count)
@@ -463,7 +465,7 @@ def run_part(pid, tier, seed, wd):
                 f.write(json.dumps(s_) + "\n")
         batches.append((fam, ["--scripts", fpath]))
     for name, nodes, runs in ([("default", 2, 30), ("restart", 2, 25), ("async", 2, 25), ("default", 3, 16), ("restart", 3, 12)] if not thorough else
-                              [("default", 2, 500), ("restart", 2, 400), ("async", 2, 400), ("default", 3, 300), ("restart", 3, 300), ("async", 3, 200)]):
+                              [("default", 2, 150), ("restart", 2, 120), ("async", 2, 120), ("default", 3, 80), ("restart", 3, 60), ("async", 3, 60)]):
         batches.append(("%s%d" % (name, nodes), ["--random", runs, "--nodes", nodes, "--profile", name]))
     if only:
         batches = [b for b in batches if b[0] in only]
